@@ -156,7 +156,14 @@ func (x *Exec) globalAddr(g *ssa.Global) *Addr {
 		x.globalIds[name] = id
 	}
 	elem := g.Type().(*types.Pointer).Elem()
-	return &Addr{Ref: IntLit(int64(id)), Elem: elem}
+	a := &Addr{Ref: IntLit(int64(id)), Elem: elem}
+	if x.structOf(elem) == nil {
+		// a scalar package-level variable lives in an array of its own, so that writes through pointers of the same type
+		// (and the havoc of user-reconfigurable state) cannot touch it
+		a.GlobalArr = "GV_" + sanitize(g.Pkg.Pkg.Name()+"_"+g.Name())
+		x.reg.declHeap(a.GlobalArr, "Int", x.reg.SortOf(elem))
+	}
+	return a
 }
 
 // term converts a Val to an SMT term
@@ -345,6 +352,9 @@ func (x *Exec) load(st *State, a *Addr, pos token.Pos) Val {
 	}
 	sort := x.reg.SortOf(a.Elem)
 	arr := x.reg.BoxArray(sort)
+	if a.GlobalArr != "" {
+		arr = a.GlobalArr
+	}
 	v := mkT(sort, sel(x.heapGet(st, arr), a.Ref, sort).S, a.Elem)
 	x.assumeWF(st, v)
 	return x.project(st, v, a.Elem, a.Path, pos)
@@ -409,6 +419,9 @@ func (x *Exec) store(st *State, a *Addr, v Val, pos token.Pos) {
 	}
 	sort := x.reg.SortOf(a.Elem)
 	arr := x.reg.BoxArray(sort)
+	if a.GlobalArr != "" {
+		arr = a.GlobalArr
+	}
 	h := x.heapGet(st, arr)
 	nv := tv
 	if len(a.Path) > 0 {
